@@ -12,16 +12,16 @@ Definition pf (e : wentry) : list (str * str) := role_fields e ++ we_fields e.
 Definition flat (e : wentry) : wentry := mkWE (we_key e) (we_otype e) (pf e) [].
 
 (* ---- reader: persons_of and process_fields, any mode, nothing reported *)
-Lemma persons_of_names m : forall ps acc s, Forall name_ok ps ->
+Lemma persons_of_names m : forall ps acc s, Forall name_okx ps ->
   persons_of m (map format_name ps) acc s = Ret (acc ++ ps) s.
 Proof.
   induction ps as [|p ps IH]; intros acc s H; cbn [map persons_of]; [now rewrite app_nil_r|].
-  inversion H as [|? ? [Hp _] Hps]; subst. rewrite (bibtex_name_roundtrip_pf p Hp). cbn [obind].
+  inversion H as [|? ? [_ Hp] Hps]; subst. rewrite Hp. cbn [obind].
   rewrite IH by exact Hps. now rewrite <- app_assoc.
 Qed.
 
 Definition role_ok (rp : str * list person) : Prop :=
-  is_person_field (lower (fst rp)) = true /\ snd rp <> [] /\ Forall name_ok (snd rp) /\
+  is_person_field (lower (fst rp)) = true /\ snd rp <> [] /\ Forall name_okx (snd rp) /\
   normalize_whitespace (names_text (snd rp)) = names_text (snd rp).
 
 Lemma process_fields_roles m : forall R seen fs ps s rest,
@@ -39,7 +39,7 @@ Proof.
     { destruct (existsb (str_eqb (lower r)) seen) eqn:E; [|reflexivity]. exfalso.
       apply existsb_str_in in E. apply (Hfr (r, pl) (or_introl eq_refl)). exact E. }
     rewrite E, Hrole. cbn [concat]. rewrite app_nil_r, Hnorm.
-    rewrite (split_name_list_names pl Hne Hnames). rewrite (persons_of_names m pl [] s Hnames). cbn [obind app].
+    rewrite (split_name_list_namesx pl Hne Hnames). rewrite (persons_of_names m pl [] s Hnames). cbn [obind app].
     destruct pl as [|p0 pl']; [congruence|].
     rewrite IH; auto.
     + rewrite <- !app_assoc. reflexivity.
@@ -350,3 +350,54 @@ Lemma name_and_refuted_pf : exists rd, write_read latex_enc FBib (person_db and_
 Proof. eexists. split; [vm_compute; reflexivity|intro H; discriminate H]. Qed.
 Lemma name_comma_refuted_pf : exists rd, write_read latex_enc FBib (person_db comma_person) = Ok rd /\ rd <> person_db comma_person.
 Proof. eexists. split; [vm_compute; reflexivity|intro H; discriminate H]. Qed.
+
+(* ---- identifier lower-casing keeps the domain with persons; chains with any preserve_case *)
+Section LowerP.
+  Variable enc : str -> str.
+
+  Lemma bibp_ok_entry_lower e : bibp_ok_entry enc e -> bibp_ok_entry enc (map_ids_entry lower e).
+  Proof.
+    intros (Ht & Hk & (Hnf & Hnp & Hne) & Hf & Hr & Hw). unfold bibp_ok_entry.
+    cbn [map_ids_entry we_otype we_key we_persons we_fields]. repeat split.
+    - unfold is_entry_type in *. rewrite lower_idem.
+      apply andb_prop in Ht as [Ht H3]. apply andb_prop in Ht as [Ht H2]. apply andb_prop in Ht as [H0 H1].
+      now rewrite (is_name_lower _ H0), H1, H2, H3.
+    - now apply is_key_lower.
+    - cbn [we_fields]. change (NoDup (lkeys (map (fun kv : str * str => (lower (fst kv), snd kv)) (we_fields e)))). now rewrite lkeys_map_lower.
+    - cbn [we_persons]. change (NoDup (lkeys (map (fun kv : str * list person => (lower (fst kv), snd kv)) (we_persons e)))). now rewrite lkeys_map_lower.
+    - cbn [map_ids_entry we_persons]. rewrite Forall_map. eapply Forall_impl; [|exact Hne]. auto.
+    - rewrite Forall_map. eapply Forall_impl; [|exact Hf]. intros [k v] (A & B & C & D & F). unfold bib_ok_field. cbn [fst snd] in *.
+      rewrite lower_idem. repeat split; auto. now apply is_name_lower.
+    - rewrite Forall_map. eapply Forall_impl; [|exact Hr]. intros [r pl] (A & B & C & D). unfold role_ok. cbn [fst snd] in *.
+      rewrite lower_idem. repeat split; auto.
+    - unfold role_fields in *. cbn [map_ids_entry we_persons]. rewrite map_map. rewrite Forall_map in Hw. rewrite Forall_map.
+      eapply Forall_impl; [|exact Hw]. intros [r pl] (A & B & C). unfold wok_field in *. cbn [fst snd] in *.
+      repeat split; auto. now apply is_name_lower.
+  Qed.
+
+  Lemma bibp_ok_lower d : bibp_ok enc d -> bibp_ok enc (map_ids lower d).
+  Proof.
+    intros (K & E & P). split; [|split; [|exact P]]; cbn [map_ids wd_entries].
+    - rewrite map_map. cbn [map_ids_entry we_key]. erewrite map_ext; [exact K|]. intros e. cbn. apply lower_idem.
+    - rewrite Forall_map. eapply Forall_impl; [|exact E]. apply bibp_ok_entry_lower.
+  Qed.
+
+  Lemma chain_rest_anyp_pc pc : forall fs d, allp_ok enc d -> chain_rest enc fs pc d = Ok (expect_rest fs pc d).
+  Proof.
+    induction fs as [|f r IH]; intros d H; [reflexivity|]. cbn [chain_rest expect_rest].
+    destruct pc.
+    - cbn [bind]. rewrite write_read_anyp by exact H. cbn [bind]. apply IH.
+      destruct H as [T B]. split; [now apply tree_ok_step|now apply bibp_ok_step].
+    - destruct H as [T B]. pose proof (proj1 T) as W. rewrite lower_only_case_pf by exact W. cbn [bind].
+      assert (A : allp_ok enc (map_ids lower d)) by (split; [now apply tree_ok_lower|now apply bibp_ok_lower]).
+      rewrite write_read_anyp by exact A. cbn [bind]. apply IH.
+      destruct A as [T2 B2]. split; [now apply tree_ok_step|now apply bibp_ok_step].
+  Qed.
+
+  Lemma chain_roundtrip_persons_pc_pf fs pc d : allp_ok enc d -> chain enc fs pc d = Ok (expect fs pc d).
+  Proof.
+    intros H. destruct fs as [|f r]; [reflexivity|]. cbn [chain expect].
+    rewrite write_read_anyp by exact H. cbn [bind]. apply chain_rest_anyp_pc.
+    destruct H as [T B]. split; [now apply tree_ok_step|now apply bibp_ok_step].
+  Qed.
+End LowerP.
